@@ -1,5 +1,5 @@
 from concurrent.futures import Executor
-from threading import Thread, Lock, Condition
+from threading import Thread, Lock, Condition, current_thread
 from collections import namedtuple, deque
 from functools import partial
 import logging
@@ -134,9 +134,13 @@ class ThrottleExecutor(CanCustomizeBind, Executor):
         self._thread.start()
 
     def submit(self, fn, *args, **kwargs):  # pylint: disable=arguments-differ
-        with self._shutdown.ensure_alive():
-            self._block_until_ready(self._eval_throttle())
+        # In blocking mode, wait for room BEFORE taking the shutdown lock: a submitter
+        # sleeping while holding it would lock out shutdown() - which is what releases
+        # it when the queue never drains - and any submit() made from a done-callback
+        # running on the hand-over thread, the only thread able to make room.
+        self._block_until_ready(self._eval_throttle())
 
+        with self._shutdown.ensure_alive():
             out = ThrottleFuture(self)
             track_future(out, type="throttle", executor=self._name)
 
@@ -160,7 +164,9 @@ class ThrottleExecutor(CanCustomizeBind, Executor):
                 self._thread.join(MAX_TIMEOUT)
 
     def _block_until_ready(self, throttle_val):
-        if not self._block:
+        if not self._block or current_thread() is self._thread:
+            # Not blocking; or this is the hand-over thread itself (a done-callback
+            # submitting more work): nobody else could make room for it.
             return
         # The check for room and the wait must be atomic with respect to whoever
         # shrinks the queue, hence a condition on the queue's own lock rather than
